@@ -47,7 +47,9 @@ def extra(res, cases, hv, driver):
             if bad <= 2:
                 res.violation("backend %s level %d width %d differs from the in-place interpreter on a program reaching values >= 2^28/2^32: %r: got %s want %s" % (backend, level, w, src, o[:80], r[:80]),
                               {"case": {"src": src, "w": w, "env": envt, "canonical": "done 1 " + r.split(" ", 2)[2]}, "backend": backend, "level": level, "profile": "release", "implementation": o})
-    return {"huge_constant_runs": len(lines), "huge_constant_disagreements": bad}
+    from .. import forms
+    fst = forms.run_forms(res, ["jit"], sample=(6 if res.tier == "quick" else None))
+    return {"huge_constant_runs": len(lines), "huge_constant_disagreements": bad, "form_level": fst}
 
 
 def run(res):
